@@ -1,4 +1,6 @@
 pub mod c05;
+pub mod c06;
+pub mod c07;
 pub mod c12;
 pub mod c17;
 
@@ -7,10 +9,12 @@ use crate::engine::Engine;
 pub fn engine(id: &str) -> Option<&'static dyn Engine> {
     match id {
         "C05" => Some(&c05::C05),
+        "C06" => Some(&c06::C06),
+        "C07" => Some(&c07::C07),
         "C12" => Some(&c12::C12),
         "C17" => Some(&c17::C17),
         _ => None,
     }
 }
 
-pub const ALL: &[&str] = &["C05", "C12", "C17"];
+pub const ALL: &[&str] = &["C05", "C06", "C07", "C12", "C17"];
